@@ -688,7 +688,7 @@ func UnfoldBooleanAction(unfoldOpts BooleanUnfold) RewriteAction {
 			},
 		}
 
-		if option.Default != nil {
+		if option.Default != nil && len(option.Default.ArgsValues) != 0 {
 			if val, ok := option.Default.ArgsValues[0].(bool); ok && val {
 				newOpts[0].Default = &ast.OptionDefault{}
 			} else {
